@@ -137,6 +137,36 @@ def check_birth(ctx, fx, cfg, RULE="R15.3"):
                     det["%s.%s" % (name, fld)] = sorted("%s:%s" % (r.kind, r.site) for r in rs)
                 else:
                     det["%s.%s" % (name, fld)] = ["?constructor"]
+        # ... or the context is made by a crate-local function that is lent the channel (`Context::for_channel(&channel)`
+        # returning the context, possibly in a tuple): its literal there, its parameters bound here
+        cfields = [fl["name"] for fl in fx.adts["context::Context"]["variants"][0]["fields"]] if "context::Context" in fx.adts else []
+        for bi, ct in b.normal_calls():
+            h = fx.callee_fn(ct)
+            if h is None or h.get("is_async") or "context::Context<" not in (h.get("output") or "") or "Context.id" in det:
+                continue
+            hb = ctx.body(fx, h)
+            lits = [(b2, s2, st) for b2, s2, st in agg_sites(hb, ak="adt") if st["r"].get("def") == "context::Context"]
+            if len(lits) != 1:
+                continue
+            lb2, ls2, lst = lits[0]
+            for fld, o in zip(lst["r"]["fields"], lst["r"]["ops"]):
+                rs = set()
+                for r in roots(hb, o):
+                    if r.kind == "arg" and r.site - 1 < len(ct["args"]):
+                        rs |= {"%s:%s" % (x.kind, x.site) for x in roots(b, ct["args"][r.site - 1])}
+                    else:
+                        rs.add("%s:%s@%s" % (r.kind, r.site, h["def"]))
+                det["Context.%s" % fld] = sorted(rs)
+            # the address made here takes its id from that context: a projection of the returned context's id field
+            if "id" in cfields:
+                idp = "f%d" % cfields.index("id")
+                for k_ in list(det):
+                    if k_ == "Addr.context_id":
+                        for st2 in [s_ for blk in b.blocks for s_ in blk["s"] if s_["k"] == "assign" and s_["r"]["k"] == "agg" and s_["r"].get("def") == "addr::Addr"]:
+                            o2 = st2["r"]["ops"][st2["r"]["fields"].index("context_id")]
+                            os2 = b.origins(o2)
+                            if os2 and all(x.kind == "call" and x.site == (bi,) and x.proj and x.proj[-1] == idp for x in os2):
+                                det["Addr.context_id"] = det["Context.id"]
         # all channel fields must come from the one `channel` argument; the id from one ContextID::default()
         for k, v in det.items():
             fld = k.split(".")[1]
